@@ -12,6 +12,8 @@
      AltBody      the genuine signed header with a DIFFERENT body whose transactions are
                   all valid against the unspent set at that height (the signature covers
                   the header only: the body-hash comparison is what rejects it)
+     OtherKeySig  the genuine block (same header, same body) with a signature made by
+                  another key over that header
      PrevVariant  the genuine block with another PrevHash in the header, signed by the
                   publisher key over that header (defect F1: ExecuteBlock overwrites
                   PrevHash before checking it; whether the tree accepts it is the
@@ -19,11 +21,11 @@
 From Sky Require Import Base.Uint.
 Open Scope Z_scope.
 
-Inductive bkind := Genuine | BadSig | BadBody | PrevVariant | AltBody.
+Inductive bkind := Genuine | BadSig | BadBody | PrevVariant | AltBody | OtherKeySig.
 Record dblock := mkd { d_seq : Z; d_kind : bkind }.
 
 Definition sig_ok (b : dblock) : bool :=
-  match d_kind b with BadSig => false | _ => true end.
+  match d_kind b with BadSig | OtherKeySig => false | _ => true end.
 Definition content_ok (f1 : bool) (b : dblock) : bool :=
   match d_kind b with Genuine => true | PrevVariant => f1 | _ => false end.
 Definition valid (f1 : bool) (b : dblock) : bool := sig_ok b && content_ok f1 b.
@@ -139,7 +141,7 @@ Fixpoint sync_loop (f1 : bool) (reqn n cap : Z) (fuel : nat) (held : list dblock
 (* boolean helpers for the cases files *)
 Definition eqb_kind (a b : bkind) : bool :=
   match a, b with
-  | Genuine, Genuine | BadSig, BadSig | BadBody, BadBody | PrevVariant, PrevVariant | AltBody, AltBody => true
+  | Genuine, Genuine | BadSig, BadSig | BadBody, BadBody | PrevVariant, PrevVariant | AltBody, AltBody | OtherKeySig, OtherKeySig => true
   | _, _ => false
   end.
 Definition eqb_reply (a b : reply) : bool :=
